@@ -27,3 +27,6 @@ python3 /verif/tools/runtests.py /tmp/seedlogs/$id-without.log cargo test --offl
 without_rc=$?
 git apply "$out/patch.diff" || exit 2
 echo "$id suite_rc=$suite_rc ok_results=$suite failing_results=$suite_fail demo_with_rc=$with_rc demo_without_rc=$without_rc" | tee "$out/confirm.txt"
+# Hung test binaries (a10's suite occasionally hangs, DESIGN 11.6) keep kernel threads spinning.
+pkill -f "$wt/target/debug/deps/[f]unctional-" 2>/dev/null
+exit 0
